@@ -155,7 +155,12 @@ class Check:
             if nd not in self.not_decided:
                 self.not_decided.append(nd)
         for k, v in d["extra"].items():
-            self.extra.setdefault(k, v)
+            if isinstance(v, (int, float)) and not isinstance(v, bool) and isinstance(self.extra.get(k), (int, float)):
+                self.extra[k] += v
+            elif isinstance(v, list) and isinstance(self.extra.get(k), list):
+                self.extra[k] = (self.extra[k] + v)[:40]
+            else:
+                self.extra.setdefault(k, v)
         for sig, what, replay in d["pending"]:
             self.violation(sig, what, replay)
 
